@@ -718,6 +718,9 @@ def build_source(spec):
             if it["bound"]:
                 sh = shape(it["t"]) if it["t"] is not None else "0"
                 lines.append(ind + "m%d = M(%d, %s)" % (it["id"], it["id"], sh))
+    bound_ids = [it["id"] for lv in spec["levels"] for it in lv["items"] if it["bound"]]
+    if bound_ids:
+        lines.append(ind + "hold = [%s]" % ", ".join("m%d" % i for i in bound_ids))
     cur = ind
     sib = 900
     for lv in spec["levels"]:
@@ -773,6 +776,14 @@ def build_source(spec):
         if w == "try":
             pass
     lines.append(cur + ("await S()" if spec["async"] else "yield 1"))
+    # second suspension: the locals that held managers are cleared (odd ids) or the manager is
+    # re-bound under another name (even ids)
+    for n, i in enumerate(bound_ids):
+        lines.append(cur + "m%d = None" % i)
+        if i % 2 == 0:
+            lines.append(cur + "al%d = hold[%d]" % (i, n))
+    lines.append(cur + "n0 = n0 + 0")
+    lines.append(cur + ("await S()" if spec["async"] else "yield 2"))
     # close the try: wrappers (need a finally clause), innermost first
     text = "\n".join(lines).split("\n")
     # compute closers: walk levels again to know indentation of each `try:` of kind "try"
@@ -791,6 +802,8 @@ def build_source(spec):
 
 
 ENV_SRC = '''
+import sys
+PROBE = None
 class U:
     def __init__(self):
         object.__setattr__(self, "_d", {})
@@ -813,10 +826,14 @@ class M:
     def __enter__(self):
         return self.val
     def __exit__(self, *a):
+        if PROBE is not None:
+            PROBE(sys._getframe(1), sys._getframe(0))
         return False
     async def __aenter__(self):
         return self.val
     async def __aexit__(self, *a):
+        if PROBE is not None:
+            PROBE(sys._getframe(1), sys._getframe(0))
         return False
 class S:
     def __await__(self):
@@ -915,9 +932,15 @@ def gen_sites(spec):
 
 
 
+def _ctx_key(c):
+    return (id(c.obj), c.varname, c.start_line, bool(c.is_async), bool(c.is_exiting))
+
+
 def runtime_check(spec, src=None, filename="<c08prog>", details=None):
-    """run the generated function up to the suspension point inside the innermost body, extract,
-    compare every context with the ast. Returns (n_contexts_checked, [problem strings], stats)"""
+    """run the generated function to its two suspension points inside the innermost body (between
+    them the locals holding managers are cleared / the managers re-bound under other names); at
+    each one extract twice (results must be equal) and compare every context with the ast and with
+    the locals bound at that moment. Returns (n_contexts_checked, [problem strings], stats)"""
     import warnings
     import stackscope
     src = src or build_source(spec)
@@ -928,54 +951,164 @@ def runtime_check(spec, src=None, filename="<c08prog>", details=None):
     obj = ns["g"]()
     problems = []
     stats = {"fallback_named": 0, "none_unsupported": 0, "rendered": 0, "no_target": 0}
+    want = [it for lv in spec["levels"] for it in lv["items"]]
+    slices_ok = PY >= (3, 12)
+    total = 0
     with warnings.catch_warnings(record=True) as wlist:
         warnings.simplefilter("always")
         try:
-            if spec["async"]:
-                assert obj.send(None) == 42
-                frame = obj.cr_frame
-            else:
-                assert next(obj) == 1
-                frame = obj.gi_frame
-            stack = stackscope.extract(obj, with_contexts=True)
-            ctxs = list(stack.frames[0].contexts)
-            flocals = dict(frame.f_locals)
+            for phase in (1, 2):
+                if spec["async"]:
+                    assert obj.send(None) == 42
+                    frame = obj.cr_frame
+                else:
+                    assert next(obj) == phase
+                    frame = obj.gi_frame
+                ctxs = list(stackscope.extract(obj, with_contexts=True).frames[0].contexts)
+                again = list(stackscope.extract(obj, with_contexts=True).frames[0].contexts)
+                flocals = dict(frame.f_locals)
+                if [_ctx_key(c) for c in ctxs] != [_ctx_key(c) for c in again]:
+                    problems.append("suspension %d: two inspections of the same suspended frame differ: %r vs %r" % (
+                        phase, [c.varname for c in ctxs], [c.varname for c in again]))
+                total += len(ctxs)
+                got_ids = [getattr(c.obj, "i", None) for c in ctxs]
+                if got_ids != [it["id"] for it in want]:
+                    problems.append("suspension %d: active contexts %r, expected managers %r" % (phase, got_ids, [it["id"] for it in want]))
+                    break
+                if details is not None:
+                    # locals in f_locals order with object identities numbered by first occurrence
+                    ids = {}
+                    loc = [(n, ids.setdefault(id(val), len(ids))) for n, val in flocals.items()]
+                    for c, it in zip(ctxs, want):
+                        details.append({"item_id": it["id"], "phase": phase, "locals": loc,
+                                        "obj": ids.setdefault(id(c.obj), len(ids)), "varname": c.varname})
+                for c, it in zip(ctxs, want):
+                    lineno, is_async, tnode = exp[it["id"]]
+                    tag = "suspension %d item %d" % (phase, it["id"])
+                    if c.start_line != lineno:
+                        problems.append("%s: start_line %r but the with keyword is on line %d" % (tag, c.start_line, lineno))
+                    if bool(c.is_async) != is_async:
+                        problems.append("%s: is_async %r" % (tag, c.is_async))
+                    v = c.varname
+                    sup = tnode is not None and supported_t(it["t"], slices_ok)
+                    if tnode is not None and v is not None and same_target(v, tnode):
+                        stats["rendered"] += 1
+                        continue
+                    if sup:
+                        problems.append("%s: supported target %r reported as varname %r" % (tag, src_t(it["t"]), v))
+                        continue
+                    # no reconstructible target: None, or the name of a local CURRENTLY bound to the manager
+                    if v is None:
+                        stats["no_target" if tnode is None else "none_unsupported"] += 1
+                    elif v in flocals and flocals[v] is c.obj:
+                        stats["fallback_named"] += 1
+                    else:
+                        problems.append("%s: varname %r is neither the target %r nor a local currently bound to the manager" % (
+                            tag, v, None if it["t"] is None else src_t(it["t"])))
         finally:
             obj.close()
     for w in wlist:
         problems.append("warning during extraction: %s" % (w.message,))
-    want = [it for lv in spec["levels"] for it in lv["items"]]
-    got_ids = [getattr(c.obj, "i", None) for c in ctxs]
-    if got_ids != [it["id"] for it in want]:
-        problems.append("active contexts %r, expected managers %r" % (got_ids, [it["id"] for it in want]))
-        return len(ctxs), problems, stats
-    slices_ok = PY >= (3, 12)
-    if details is not None:
-        # locals in f_locals order with object identities numbered by first occurrence
+    return total, problems, stats
+
+
+# ------------------------------------------------------------------ rebinding scenarios (locals fallback)
+REBIND_ORDERS = [[0, 1], [0, 2], [1, 0], [2, 0, 1], [0, 0], [0, 1, 2, 0]]
+
+
+def rebind_scenarios():
+    return [{"target": t, "async": a, "order": o} for t in ("none", "unsup") for a in (False, True) for o in REBIND_ORDERS]
+
+
+def rebind_source(scn):
+    kw = "async with" if scn["async"] else "with"
+    susp = (lambda n: "await S()") if scn["async"] else (lambda n: "yield %d" % n)
+    tgt = "" if scn["target"] == "none" else " as lo[n0 + 1]"
+    return "\n".join([
+        ("async def w(mode):" if scn["async"] else "def w(mode):"),
+        "    lo = U(); n0 = 1",
+        "    mgr = M(1); hold = [mgr]; other = None",
+        "    if mode == 1: mgr = None",
+        "    elif mode == 2: other = mgr; mgr = None",
+        "    %s hold[0]%s:" % (kw, tgt),
+        "        " + susp(1),
+        "        mgr = None; other = None",
+        "        " + susp(2),
+        "        other = hold[0]",
+        "        " + susp(3),
+        "        mgr = hold[0]; other = None",
+        "    " + susp(4), ""])
+
+
+def rebind_check(scn):
+    """Several instances of ONE function (one code object) whose manager has no reconstructible
+    target, started with different local bindings of the manager (mode 0: local `mgr`; 1: no local;
+    2: local `other`), stepped round-robin through three suspensions that rebind the locals, and
+    finally through the exit (inspected from inside __exit__: the exiting entry). Every inspection
+    is done twice. Returns (records, problems); a record is one reported context:
+    {label, locals [(name, identity)], obj identity, varname, exiting}."""
+    import warnings
+    from stackscope import lowlevel as ll
+    ns = make_env()
+    exec(compile(rebind_source(scn), "<c08rebind>", "exec"), ns)
+    records, problems = [], []
+    with_line = 6
+
+    def record(label, ctxs, again, flocals, exiting):
+        if [_ctx_key(c) for c in ctxs] != [_ctx_key(c) for c in again]:
+            problems.append("%s: two inspections differ: %r vs %r" % (label, [c.varname for c in ctxs], [c.varname for c in again]))
+        if len(ctxs) != 1:
+            problems.append("%s: %d contexts reported, expected 1" % (label, len(ctxs)))
+            return
+        c = ctxs[0]
+        if bool(c.is_exiting) != exiting:
+            problems.append("%s: is_exiting %r" % (label, c.is_exiting))
+        if c.start_line != with_line:
+            problems.append("%s: start_line %r, the with keyword is on line %d" % (label, c.start_line, with_line))
+        if getattr(c.obj, "i", None) != 1:
+            problems.append("%s: obj %r is not the manager" % (label, c.obj))
         ids = {}
-        loc = [(n, ids.setdefault(id(val), len(ids))) for n, val in flocals.items()]
-        for c, it in zip(ctxs, want):
-            details.append({"item_id": it["id"], "locals": loc, "obj": ids.setdefault(id(c.obj), len(ids)), "varname": c.varname})
-    for c, it in zip(ctxs, want):
-        lineno, is_async, tnode = exp[it["id"]]
-        if c.start_line != lineno:
-            problems.append("item %d: start_line %r but the with keyword is on line %d" % (it["id"], c.start_line, lineno))
-        if bool(c.is_async) != is_async:
-            problems.append("item %d: is_async %r" % (it["id"], c.is_async))
-        v = c.varname
-        sup = tnode is not None and supported_t(it["t"], slices_ok)
-        if tnode is not None and v is not None and same_target(v, tnode):
-            stats["rendered"] += 1
-            continue
-        if sup:
-            problems.append("item %d: supported target %r reported as varname %r" % (it["id"], src_t(it["t"]), v))
-            continue
-        # no reconstructible target: None, or the name of a local bound to the manager
-        if v is None:
-            stats["no_target" if tnode is None else "none_unsupported"] += 1
-        elif v in flocals and flocals[v] is c.obj:
-            stats["fallback_named"] += 1
-        else:
-            problems.append("item %d: varname %r is neither the target %r nor a local bound to the manager" % (
-                it["id"], v, None if it["t"] is None else src_t(it["t"])))
-    return len(ctxs), problems, stats
+        loc = [(n, ids.setdefault(id(v), len(ids))) for n, v in flocals.items()]
+        records.append({"label": label, "locals": loc, "obj": ids.setdefault(id(c.obj), len(ids)),
+                        "varname": c.varname, "exiting": exiting})
+        if c.varname is not None and not (c.varname in flocals and flocals[c.varname] is c.obj):
+            problems.append("%s: varname %r does not name a local currently bound to the manager (locals bound to it: %r)" % (
+                label, c.varname, [n for n, v in flocals.items() if v is c.obj]))
+
+    insts = [(n, mode, ns["w"](mode)) for n, mode in enumerate(scn["order"])]
+
+    def step(o):
+        return o.send(None) if scn["async"] else next(o)
+
+    def frame_of(o):
+        return o.cr_frame if scn["async"] else o.gi_frame
+
+    with warnings.catch_warnings(record=True) as wlist:
+        warnings.simplefilter("always")
+        try:
+            for phase in (1, 2, 3):
+                for n, mode, o in insts:
+                    step(o)
+                    fr = frame_of(o)
+                    a = ll.contexts_active_in_frame(fr, o)
+                    b = ll.contexts_active_in_frame(fr, o)
+                    record("instance %d (mode %d) suspension %d" % (n, mode, phase), a, b, dict(fr.f_locals), False)
+            for n, mode, o in insts:
+                def probe(fr, inner, n=n, mode=mode):
+                    a = ll.contexts_active_in_frame(fr, None, inner)
+                    b = ll.contexts_active_in_frame(fr, None, inner)
+                    record("instance %d (mode %d) exiting" % (n, mode), a, b, dict(fr.f_locals), True)
+                ns["PROBE"] = probe
+                try:
+                    step(o)
+                finally:
+                    ns["PROBE"] = None
+        finally:
+            for n, mode, o in insts:
+                o.close()
+    for w in wlist:
+        problems.append("warning during inspection: %s" % (w.message,))
+    want = 4 * len(insts)
+    if len(records) != want and not problems:
+        problems.append("%d inspections recorded, expected %d" % (len(records), want))
+    return records, problems
